@@ -565,3 +565,112 @@ def rule_T4(ctx):
     r.analysed["tables"] = table
     r.analysed["abstract_states"] = model.states
     return r
+
+
+# --------------------------------------------------------------------------------------- G3b
+def offer_matrix(model, F, p, gdt):
+    """For one instruction function: the operand type tuples (source order) for which some Ok outcome was produced without
+    the host having been offered the operation.  None when the function never offers anything."""
+    import itertools
+
+    f = F.fns[p]
+    outs = model.summary(p, entry_args(f["mir"]["argc"]) if f["crate"] != "gfixture" else [TOP] * f["mir"]["argc"], 0)
+    if not any("defer" in ts[3] for _rv, ts in outs):
+        return None, 0
+    npops = max((ts[4] for _rv, ts in outs), default=0)
+    syms = [("s", "pop", 1), ("s", "pop", 2)][: max(1, min(2, npops))]
+    quiet = []
+    n = 0
+    for combo in itertools.product(gdt, repeat=len(syms)):
+        fx = tuple(sorted((_tag_key(s), ("vn", v)) for s, v in zip(syms, combo)))
+        o = model.summary(p, entry_args(f["mir"]["argc"]) if f["crate"] != "gfixture" else [TOP] * f["mir"]["argc"], 0, fx)
+        n += 1
+        if any(is_variant(rv, "Ok") and "defer" not in ts[3] for rv, ts in o):
+            quiet.append(tuple(combo[::-1]))
+    return quiet, n
+
+
+_G3B_CTX = None
+
+
+def _g3b_job(p):
+    F, gdt = _G3B_CTX
+    model = rt.Model(F, trusted=spec("arity.json")["trusted"], refine_tags=True, flags_only=True)
+    try:
+        quiet, n = offer_matrix(model, F, p, gdt)
+        return ("ok", quiet, n, model.states)
+    except (ai.StateCapExceeded, rt.Unmodelled) as e:
+        return ("err", str(e))
+
+
+def rule_G3b(ctx):
+    """offer matrix: which operand type tuples an instruction answers without asking the host, against the language's table"""
+    F = ctx.F
+    r = RuleResult("G3b", "offer matrix: for every instruction that defers undefined operand combinations and every tuple of operand types, an Ok outcome without an offer to the host (defer_op) exists only for the tuples the language defines (spec/defined_operands.json)")
+    sp = spec("defined_operands.json")
+    model = rt.Model(F, trusted=spec("arity.json")["trusted"], refine_tags=True, flags_only=True)
+    gdt = [last(v) for v in variants(F, GDT)]
+    r.floor("GarnishDataType variants", len(gdt), 21)
+    decided = 0
+    tuples = 0
+    todo = []
+    for p in sorted(instruction_fns(F)):
+        name = F.fns[p]["name"]
+        if name == "make_list":
+            continue
+        if name in sp["not_decided"]:
+            r.info.append("not decided for `%s`: %s" % (name, sp["not_decided"][name]))
+            continue
+        todo.append(p)
+    global _G3B_CTX
+    _G3B_CTX = (F, gdt)
+    import multiprocessing, os
+    results = None
+    if os.environ.get("GCHECK_SERIAL") != "1":
+        try:
+            with multiprocessing.get_context("fork").Pool(min(12, os.cpu_count() or 4)) as pool:
+                results = pool.map(_g3b_job, todo, chunksize=1)
+        except Exception:
+            results = None
+    if results is None:
+        results = [_g3b_job(p) for p in todo]
+    for p, res in zip(todo, results):
+        f = F.fns[p]
+        name = f["name"]
+        if res[0] == "err":
+            r.finding(p, "uninterpretable", loc(f["hir"]), "cannot interpret `%s` under operand type facts (%s): failing closed" % (name, res[1]))
+            continue
+        quiet, n = res[1], res[2]
+        if quiet is None:
+            continue
+        decided += 1
+        tuples += n
+        defined = set(tuple(t) for t in sp["defined"].get(name, []))
+        if name not in sp["defined"]:
+            r.finding(p, "no-table:%s" % name, loc(f["hir"]), "`%s` defers operand combinations to the host but spec/defined_operands.json has no row for it" % name)
+            continue
+        extra = sorted(set(quiet) - defined)
+        r.examine((p,), True, {"fn": name, "type_tuples": n, "answered_without_offer": len(quiet), "defined": len(defined)})
+        r.examined += max(n - 1, 0)
+        if extra:
+            lefts = sorted(set(t[0] for t in extra))
+            rights = sorted(set(t[-1] for t in extra)) if len(extra[0]) > 1 else []
+            inst = "not-offered:%s:%s" % (name, ";".join(",".join(t) for t in extra))
+            r.finding(p, inst, loc(f["hir"]), "`%s` produces a result for operand types %s without offering the operation to the host: the language defines no result for %s, so the host's deferred-operation callback must be asked first (and unit answered only if it declines)" % (
+                name, "; ".join("(" + ", ".join(t) + ")" for t in extra[:8]) + (" ..." if len(extra) > 8 else ""), "these" if len(extra) > 1 else "this combination"))
+    r.floor("instruction functions with an offer matrix", decided, 19)
+    r.analysed["type_tuples_interpreted"] = tuples
+    r.analysed["abstract_states"] = sum(res[3] for res in results if res[0] == "ok")
+    # controls: an access-like handler that answers unit for (CharList, Symbol) by itself / that lets it fall to the offer
+    for p, f in F.fns.items():
+        if p.startswith("gfixture::round3::g3b::") and f["kind"] != "Closure" and f.get("name", "").startswith(("ctl_", "ok_")):
+            try:
+                quiet, _n = offer_matrix(model, F, p, gdt)
+                hit = bool(set(quiet or []) - {("List", "Symbol")})
+            except (ai.StateCapExceeded, rt.Unmodelled):
+                hit = False
+            if f["name"].startswith("ctl_"):
+                r.control(f["name"], hit)
+            else:
+                r.neg_control(f["name"], not hit)
+    return r
